@@ -1,5 +1,6 @@
 import OdmlModel.Model.Card
 import Driver.Util
+import Driver.Loop
 open Lean Drv
 
 namespace DrvC09
@@ -76,3 +77,5 @@ def handle (j : Json) : Except String Json := do
   | _ => throw s!"unknown op {op}"
 
 end DrvC09
+
+def main : IO Unit := Drv.runLoop DrvC09.handle
